@@ -923,23 +923,6 @@ func main() {
 		if res.Panic {
 			res.Evs = crashEvs(j.c)
 			direct = "a goroutine of the library panicked (process crash): " + res.PanicMsg
-			if strings.Contains(res.PanicMsg, "expected reconnecting") {
-				sigs = append(sigs, "F10:panic-close-while-dialling")
-			}
-		}
-		f5 := false
-		for _, m := range res.ConnMatrix {
-			if (m[0] == 2 && m[1] == 5) || (m[0] == 5 && m[1] == 4) {
-				f5 = true
-			}
-		}
-		if f5 {
-			sigs = append(sigs, "F5:after-close-waits-for-context")
-		}
-		for _, m := range res.ConnMatrix {
-			if m[0] == 7 && m[1] == 4 {
-				sigs = append(sigs, "F25:receive-reply-call-context-canceled")
-			}
 		}
 		if res.WireAfter > 0 {
 			// the known shape: final flushes (chunk / downstream ack) of streams with buffered data; frequent behind a slow-return Write, rare without
@@ -951,18 +934,6 @@ func main() {
 			}
 			if only {
 				sigs = append(sigs, "F11:final-flush-after-disconnect")
-			}
-		}
-		if res.Leaked > 0 && j.c.Outage == "dialfail" {
-			// the known shape: three goroutines per open stream, all below connStatus.waitUntil / dispatchLoop
-			only := res.Leaked%3 == 0 && res.Leaked <= 3*(j.c.Ups+j.c.Downs)
-			for _, wh := range res.LeakedWhere {
-				if !strings.HasPrefix(wh, "iscp.(*connStatus).waitUntil") && wh != "iscp.(*eventDispatcher).dispatchLoop" {
-					only = false
-				}
-			}
-			if only {
-				sigs = append(sigs, "F24:supervisor-leak-close-during-outage")
 			}
 		}
 		var sm, sc, cr []string
